@@ -156,19 +156,24 @@ func (dd *Document) addMethod(service *client_j5pb.Service, method *client_j5pb.
 		}
 	}
 
-	responseSchema, err := convertObjectItem(method.ResponseBody)
-	if err != nil {
-		return fmt.Errorf("response body: %w", err)
-	}
-	operation.Responses = &ResponseSet{{
+	okResponse := Response{
 		Code:        200,
 		Description: "OK",
-		Content: OperationContent{
+	}
+	if method.ResponseBody != nil {
+		responseSchema, err := convertObjectItem(method.ResponseBody)
+		if err != nil {
+			return fmt.Errorf("response body: %w", err)
+		}
+		okResponse.Content = OperationContent{
 			JSON: &OperationSchema{
 				Schema: responseSchema,
 			},
-		},
-	}}
+		}
+	}
+	// a method declared without a response block returns a raw HTTP body:
+	// there is no JSON schema to describe
+	operation.Responses = &ResponseSet{okResponse}
 
 	found := false
 	for _, pathItem := range dd.Paths {
